@@ -1,15 +1,15 @@
-\* quick: 2 callers through wait_for_*/create_*, 2 messages in batches <= 2, one cancel, one timeout; exhaustive
+\* thorough: 2 messages in batches <= 2; 2 callers, a listener of MessageReceivedEvent that suspends (slow listener) for one message, one cancel and one timeout that may land inside the suspension, registrations too; exhaustive (2.8e5 states)
 SPECIFICATION Spec
 CONSTANTS
   Callers = {1, 2}
-  Specs <- SpecsQ
-  Msgs <- MsgsQ
+  Specs <- SpecsG
+  Msgs <- MsgsG
   Apis = {"wait"}
   MaxFeeds = 2
   MaxBatch = 2
   MaxCancel = 1
   MaxDue = 1
-  MaxSlow = 0
+  MaxSlow = 1
   MaxSendFail = 0
   SendHops = 4
   SkipDoneFutures = TRUE
